@@ -1121,13 +1121,12 @@ Proof.
   pose proof (lim_loop_steps _ _ _ _ _ _ _ _ Hl) as Hs.
   destruct (lim_loop_started _ _ _ _ _ _ _ _ Hl) as (Hn & Hb0 & Hb1).
   assert (Hr : 0 <= R r <= m) by apply Hi.
-  set (a := n_charged codes i n) in *.
   destruct b.
-  - destruct (Hb1 eq_refl) as [Hlt Hch].
+  - set (a := n_charged codes i n) in *. destruct (Hb1 eq_refl) as [Hlt Hch].
     assert (Ha : Z.of_nat a = m - R r).
     { destruct (Z.lt_trichotomy (Z.of_nat a) (m - R r)) as [H|[H|H]]; [exfalso|exact H|exfalso].
       - rewrite (window_admits m r now (a + 1) Hi Hw) in Hs by lia.
-        inversion Hs as [[_ Ho]]. rewrite repeat_app in Ho. apply app_inv_head in Ho. discriminate.
+        pose proof (f_equal snd Hs) as Ho. cbn [snd] in Ho. rewrite repeat_app in Ho. apply app_inv_head in Ho. discriminate.
       - pose proof (window_overrun m r now (a + 1) Hm Hi Hw ltac:(lia)) as Ho.
         rewrite Hs in Ho. cbn [snd] in Ho.
         rewrite app_nth1 in Ho by (rewrite repeat_length; lia).
@@ -1136,7 +1135,8 @@ Proof.
     + replace fuel with (n + S (fuel - n - 1))%nat by lia. rewrite n_charged_app, n_charged_S, Hch.
       fold a. lia.
     + rewrite (window_refuses m r now a Hm Hi Hw Ha) in Hs. inversion Hs. reflexivity.
-  - rewrite (Hb0 eq_refl) in *. rewrite Nat.add_0_r, app_nil_r in Hs.
+  - pose proof (Hb0 eq_refl) as En. subst n. set (a := n_charged codes i fuel) in *.
+    rewrite Nat.add_0_r, app_nil_r in Hs.
     assert (Ha : Z.of_nat a <= m - R r).
     { destruct (Z.le_gt_cases (Z.of_nat a) (m - R r)) as [H|H]; [exact H|exfalso].
       pose proof (window_overrun m r now a Hm Hi Hw ltac:(lia)) as Ho.
